@@ -24,8 +24,8 @@ from translate import ktn_cfg
 
 PROP = "C13"
 LEAN_MODULE = "TopSearch.Props.C13"
-LEAN_FILES = ["TopSearch.Props.C13", "TopSearch.Model.History", "TopSearch.Model.Ktn",
-              "TopSearch.Lemmas.Ktn"]
+LEAN_FILES = ["TopSearch.Props.C13", "TopSearch.Lemmas.History", "TopSearch.Model.History",
+              "TopSearch.Gen.History", "TopSearch.Model.Ktn", "TopSearch.Lemmas.Ktn"]
 EXTRA_TARGETS = ["TopSearch.Gen.History", "TopSearch.Gen.Ktn", "TopSearch.Model.History"]
 REQUIRED = [
     "TopSearch.Props.C13.C13_bridge_kernel",
@@ -396,6 +396,7 @@ def gen_pairs(rng, w: World) -> list[tuple[int, int]]:
         return []
     out = []
     hist = [tuple(int(x) for x in r) for r in np.asarray(w.k.pairlist).reshape(-1, 2)]
+    hist = [p for p in hist if 0 <= min(p) and max(p) < n]     # (a broken history may name missing minima)
     edges = [(int(u), int(v)) for u, v in w.k.G.edges()]
     for _ in range(rng.choice([0, 1, 2, 3, 3, 4, 5, 6])):
         r = rng.random()
